@@ -366,7 +366,11 @@ impl DbcParser {
         // Skip to the record data (uses version-specific offset)
         cursor.seek(SeekFrom::Start(self.record_data_offset))?;
 
-        let mut records = Vec::with_capacity(self.header.record_count as usize);
+        // The counts come straight from the file: pre-allocate no more records than
+        // the data could hold
+        let max_records = self.data.len() / (self.header.record_size as usize).max(1);
+        let mut records =
+            Vec::with_capacity((self.header.record_count as usize).min(max_records));
 
         for _ in 0..self.header.record_count {
             let record = if let Some(schema) = &self.schema {
@@ -417,7 +421,8 @@ impl DbcParser {
 
     /// Parse a record without a schema
     fn parse_record_raw(&self, cursor: &mut Cursor<&[u8]>) -> Result<Record> {
-        let mut values = Vec::with_capacity(self.header.field_count as usize);
+        let mut values =
+            Vec::with_capacity((self.header.field_count as usize).min(self.data.len() / 4));
 
         for _ in 0..self.header.field_count {
             // Without a schema, we assume all fields are 32-bit integers
